@@ -24,7 +24,7 @@ Item0 == Leaf(Lits) \cup (IF Deep THEN [k : {"op"}, n : Names, op : Ops, t : T00
 T0 == {t \in Seqs(Item0, W0) : NoClash(t) /\ NoLitLit(t)}
 Item1 == Leaf(TopLits) \cup [k : {"op"}, n : Names, op : Ops, t : T0]
 T1 == {t \in Seqs(Item1, W1) : NoClash(t) /\ NoLitLit(t)}
-Vals == {[set |-> FALSE, v |-> ""], [set |-> TRUE, v |-> ""], [set |-> TRUE, v |-> "v"], [set |-> TRUE, v |-> "${A}$b_1"]}
+Vals == {[set |-> FALSE, v |-> ""], [set |-> TRUE, v |-> ""], [set |-> TRUE, v |-> "v"], [set |-> TRUE, v |-> "${A}$b_1"], [set |-> TRUE, v |-> " "]}   \* " ": set and not empty
 
 \* the whole case is one state: the AST, its rendering, the environment and the value the specification defines;
 \* the harness reads the states from TLC's state dump (-dump) and replays them on the real code
@@ -34,7 +34,7 @@ Case(t, e) == [t |-> t, s |-> Render(t), env |-> e, r |-> Eval(t, e)]
 \* successors, so that all TLC workers share the enumeration (initial states are computed by one thread).
 \* literal text with balanced braces inside a default / replacement / message (Go templates, JSON): the substitution ends at the
 \* brace that closes it, not at the first closing brace
-BraceLits == {"{{.N}}", "{}", "{\"a\":1}"}
+BraceLits == {"{{.N}}", "{}", "{\"a\":1}", "h@ello w@orld", "@>{@e}"}   \* (@e, @o, @>: the harness writes é, ö, → - text of more than one byte per character)
 BraceItems == [k : {"op"}, n : Names, op : Ops, t : {<<[k |-> "lit", c |-> c]>> : c \in BraceLits}]
 Seeds == {<<>>} \cup {<<i>> : i \in Item1 \cup BraceItems}
 Init == \E sd \in Seeds : vec = [seed |-> sd]
